@@ -1021,14 +1021,14 @@ def run_program(cmds, message, env, col, cls, meta=None):
         kind = 'false-reject'
     elif valid and R.ok:
         if lib_stack is not None and all_bytes(lib_stack) and [bytes(x) for x in lib_stack] == R.stack[:-1]:
-            return
+            return log
         kind = 'final-stack'
     else:
         col.probe('program-both-reject')
-        return
+        return log
     if kind == 'false-reject' and unimpl and not (set(unimpl) <= LT_FAMILY):
         col.probe('program-unimplemented-refused')
-        return
+        return log
     mech = attribute_program(cmds, ctx_args, env, log, valid, lib_stack, R, kind, unimpl, exc, mon)
     if kind == 'false-accept':
         key = ('C19/false-accept/' + mech) if mech else None
@@ -1046,6 +1046,7 @@ def run_program(cmds, message, env, col, cls, meta=None):
                   {'valid': valid, 'exc': repr(exc)[:160] if exc is not None else None, 'stack': hx(lib_stack) if lib_stack is not None and all_bytes(lib_stack) else repr(lib_stack)[:200],
                    'steps': [(e.name, e.dev) for e in log if e.dev][:6]},
                   {'valid': R.ok, 'reason': R.reason, 'stack_before_final_pop': hx(R.stack)})
+    return log
 
 
 def _env_json(env):
@@ -1351,7 +1352,9 @@ def run_programs(spec, col):
 
 def run_lifted(spec, col):
     """Every small stack x every dispatchable opcode as a program (pushes followed by the opcode): the program-level
-    consequence of each step deviation, in particular which of them turn into a false accept."""
+    consequence of each step deviation.  Where the library's opcode leaves a different stack than consensus, a second
+    program compares the differing item with the value the library produced (`... OP DROP* <lib item> EQUAL`), which
+    consensus must reject: the directed search for false accepts."""
     mon = monitor(col)
     sh, ns = spec['shard'], spec['nshard']
     impl = sorted(c for c in implemented_by_dispatch(mon.Stack) if c not in (0x63, 0x64, 0x67, 0x68, 0xac, 0xad, 0xae, 0xaf))
@@ -1363,7 +1366,89 @@ def run_lifted(spec, col):
         for opc in impl:
             if len(st) == 3 and not full3 and not (NEEDS.get(opc, 0) >= 3 or opc in (0x79, 0x7a, 0x72)):
                 continue
-            run_program(list(st) + [opc], DIGEST, env, col, 'program/lifted/%s' % si.OPNAME[opc].lower())
+            name = si.OPNAME[opc].lower()
+            log = run_program(list(st) + [opc], DIGEST, env, col, 'program/lifted/%s' % name)
+            _directed_compare(list(st), opc, log, env, col)
+    # deeper stacks for the shuffles that need four or more items
+    for d in range(4, 8):
+        for salt in (0, 5):
+            for opc in (0x72, 0x70, 0x71, 0x6f, 0x7d, 0x7b):
+                if (d + salt + opc) % ns != sh:
+                    continue
+                st = distinct(d, salt)
+                log = run_program(st + [opc], DIGEST, env, col, 'program/lifted/%s' % si.OPNAME[opc].lower())
+                _directed_compare(st, opc, log, env, col)
+    if sh == 0:
+        run_directed(col)
+
+
+def _directed_compare(st, opc, log, env, col):
+    top = [e for e in (log or []) if e.depth == 0]
+    if len(top) != 1 or not top[0].judged or not top[0].dev:
+        return
+    e = top[0]
+    if not (e.ok and e.ref_ok and e.ref_after is not None and all_bytes(e.after)):
+        return
+    a = [bytes(x) for x in e.after]
+    r = e.ref_after
+    k = 0
+    while k < len(a) and k < len(r) and a[-1 - k] == r[-1 - k]:
+        k += 1
+    if k >= len(a):
+        return
+    prog = list(st) + [opc] + [0x75] * k + [a[-1 - k], 0x87]
+    run_program(prog, DIGEST, env, col, 'program/directed/%s' % si.OPNAME[opc].lower())
+
+
+def run_directed(col):
+    """Fixed programs aimed at the dispatch-level and conditional mechanisms (deterministic, shard 0)."""
+    env = {'sequence': 10, 'locktime': 1000, 'version': 2}
+    progs = [
+        ('if/two-else-accept', [0x51, 0x63, 0x51, 0x67, 0, 0x67, 0, 0x68], env),
+        ('if/two-else-reject', [0x51, 0x63, 0, 0x67, 0, 0x67, 0x51, 0x68], env),
+        ('if/two-else-false-branch', [0, 0x63, 0x51, 0x67, 0, 0x67, 0x51, 0x68], env),
+        ('if/three-else', [0x51, 0x63, 0x52, 0x67, 0x53, 0x67, 0x54, 0x67, 0x55, 0x68, 0x93, 0x56, 0x87], env),
+        ('notif/two-else', [0, 0x64, 0x51, 0x67, 0, 0x67, 0, 0x68], env),
+        ('if/nested-two-else', [0x51, 0x51, 0x63, 0x63, 0x51, 0x67, 0, 0x67, 0, 0x68, 0x67, 0, 0x68], env),
+        ('if/skipped-disabled', [0, 0x63, 0x7e, 0x68, 0x51], env),
+        ('if/skipped-disabled-else', [0x51, 0x63, 0x51, 0x67, 0x8d, 0x68], env),
+        ('if/skipped-verif', [0, 0x63, 0x65, 0x68, 0x51], env),
+        ('notif/skipped-vernotif', [0x51, 0x64, 0x66, 0x68, 0x51], env),
+        ('if/skipped-oversized-push', [0, 0x63, b'\x42' * 521, 0x68, 0x51], env),
+        ('if/skipped-reserved-is-fine', [0, 0x63, 0x50, 0x62, 0x89, 0x8a, 0x68, 0x51], env),
+        ('if/executed-disabled', [0x51, 0x63, 0x7e, 0x68, 0x51], env),
+        ('if/unbalanced-open', [0x51, 0x63, 0x51], env),
+        ('if/unbalanced-endif', [0x51, 0x68], env),
+        ('if/unbalanced-else', [0x51, 0x67, 0x51, 0x68], env),
+        ('if/empty-stack', [0x63, 0x51, 0x68, 0x51], env),
+        ('if/negative-zero', [b'\x80', 0x63, 0, 0x67, 0x51, 0x68], env),
+        ('if/five-byte-zero', [b'\x00\x00\x00\x00\x80', 0x64, 0x51, 0x67, 0, 0x68], env),
+        ('final/negative-zero', [b'\x80'], env), ('final/00', [b'\x00'], env), ('final/0000', [0x51, b'\x00\x00'], env),
+        ('final/empty-stack', [0x51, 0x75], env), ('final/empty-script', [], env), ('final/true-below-false', [0x51, 0], env),
+        ('cltv/height-vs-time-accept', [si.num_encode(400000000), 0xb1], {'sequence': 1, 'locktime': 600000000, 'version': 2}),
+        ('cltv/height-vs-height-reject', [si.num_encode(40000000), 0xb1], {'sequence': 1, 'locktime': 60000000, 'version': 2}),
+        ('cltv/zero-locktime', [0, 0xb1, 0x51], {'sequence': 1, 'locktime': 0, 'version': 2}),
+        ('cltv/six-byte-operand', [b'\x01\x00\x00\x00\x00\x00', 0xb1], {'sequence': 1, 'locktime': 1000, 'version': 2}),
+        ('cltv/final-sequence', [si.num_encode(500), 0xb1], {'sequence': 0xffffffff, 'locktime': 1000, 'version': 2}),
+        ('cltv/satisfied', [si.num_encode(500), 0xb1], {'sequence': 1, 'locktime': 1000, 'version': 2}),
+        ('csv/satisfied', [si.num_encode(10), 0xb2], {'sequence': 10, 'locktime': 0, 'version': 2}),
+        ('csv/unsatisfied', [si.num_encode(11), 0xb2], {'sequence': 10, 'locktime': 0, 'version': 2}),
+        ('csv/version-1', [si.num_encode(10), 0xb2], {'sequence': 10, 'locktime': 0, 'version': 1}),
+        ('csv/disabled-in-tx', [si.num_encode(10), 0xb2], {'sequence': 0x8000000a, 'locktime': 0, 'version': 2}),
+        ('csv/negative', [0x4f, 0xb2, 0x51], {'sequence': 10, 'locktime': 0, 'version': 2}),
+        ('csv/empty-stack', [0xb2, 0x51], {'sequence': 10, 'locktime': 0, 'version': 2}),
+        ('pick/five-byte-index', [0x52, 0x53, b'\x01\x00\x00\x00\x00', 0x79], env),
+        ('roll/five-byte-index', [0x52, 0x53, b'\x01\x00\x00\x00\x00', 0x7a], env),
+        ('numequalverify/five-byte', [0x51, b'\x01\x00\x00\x00\x00', 0x9d], env),
+        ('lessthan/unreachable', [0x51, 0x52, 0x9f], env), ('greaterthan/unreachable', [0x52, 0x51, 0xa0], env),
+        ('lessthanorequal/unreachable', [0x51, 0x51, 0xa1], env), ('greaterthanorequal/unreachable', [0x51, 0x51, 0xa2], env),
+        ('unimplemented/altstack', [0x51, 0x6b, 0x6c], env), ('unimplemented/codeseparator', [0x51, 0xab], env),
+        ('unimplemented/reserved', [0x51, 0x50], env), ('unimplemented/unknown-ba', [0x51, 0xba], env),
+        ('unimplemented/bare-push-opcode', [0x51, 0x05], env), ('disabled/cat', [0x51, 0x51, 0x7e], env),
+        ('return', [0x51, 0x6a], env), ('return/with-data', [0x6a, b'data'], env),
+    ]
+    for label, cmds, e in progs:
+        run_program(cmds, DIGEST, e, col, 'program/directed/' + label)
 
 
 def _n(n):
@@ -1371,20 +1456,42 @@ def _n(n):
 
 
 def run_spends(spec, col):
+    """P2PK / P2PKH / bare m-of-n with real signatures.  Which variant a shard runs is a deterministic round-robin over
+    (signature variant x key encoding x template x suffix); only keys, nonces and digests come from the seed."""
     rnd = random.Random('%s-spend-%d-%d' % (ID, spec['seed'], spec['shard']))
+    sh, ns = spec['shard'], spec['nshard']
     n = spec['n_spends']
+    kinds = ['p2pk', 'p2pkh', 'p2pkh-wrong-hash', 'p2pk-verify']
+    tails = [[], [0x91], [0x91, 0x91]]
+    kr = Keyring(rnd, 4)
+    digest = rnd.randbytes(32)
+    sv_names = sorted(sig_variants(kr, 0, digest, rnd))
+    pv_names = sorted(pub_variants(kr, 0))
+    combos = []
+    for sn in sv_names + ['der-padded-r']:
+        for pn in pv_names:
+            if sn != 'valid' and pn not in ('compressed', 'uncompressed'):
+                continue
+            for kind in kinds:
+                for t in range(len(tails)):
+                    if kind == 'p2pk-verify' and t:
+                        continue
+                    combos.append((sn, pn, kind, t))
     count = 0
+    rounds = 0
     while count < n:
-        kr = Keyring(rnd, 4)
-        digest = rnd.randbytes(32)
-        i = rnd.randrange(4)
-        sv = sig_variants(kr, i, digest, rnd)
-        pv = pub_variants(kr, i)
-        for sn in rnd.sample(sorted(sv), 6) + ['valid']:
-            pn = rnd.choice(['compressed', 'compressed', 'uncompressed']) if sn != 'valid' else rnd.choice(sorted(pv))
-            sg, pb = sv[sn], pv[pn]
-            tail = rnd.choice([[], [], [], [0x91], [0x91, 0x91]])
-            kind = rnd.choice(['p2pk', 'p2pkh', 'p2pkh', 'p2pkh-wrong-hash', 'p2pk-verify'])
+        for ci, (sn, pn, kind, t) in enumerate(combos):
+            if (ci + rounds) % ns != sh or count >= n:
+                continue
+            if count % 6 == 0:
+                kr = Keyring(rnd, 4)
+                digest = rnd.randbytes(32)
+            i = rnd.randrange(4)
+            sv = sig_variants(kr, i, digest, rnd)
+            if sn not in sv:
+                continue
+            sg, pb = sv[sn], pub_variants(kr, i)[pn]
+            tail = tails[t]
             if kind == 'p2pk':
                 cmds = [sg, pb, 0xac] + tail
             elif kind == 'p2pk-verify':
@@ -1394,16 +1501,22 @@ def run_spends(spec, col):
                 cmds = [sg, pb, 0x76, 0xa9, h, 0x88, 0xac] + tail
             run_program(cmds, digest, None, col, 'spend/%s/sig-%s/pub-%s%s' % (kind, sn, pn, '/not' * len(tail)))
             count += 1
-        for label, st in rnd.sample(multisig_stacks(kr, digest, rnd), 8):
+        rounds += 1
+        if rounds > 50:
+            break
+    # bare multisig: every labelled stack, as CHECKMULTISIG / CHECKMULTISIGVERIFY 1 / CHECKMULTISIG NOT, without and
+    # with env_data['redeemscript'] (the dispatch loop needs it and pushes it)
+    reps = max(1, spec.get('sig_reps', 1))
+    for rep in range(reps):
+        kr = Keyring(rnd, 4)
+        digest = rnd.randbytes(32)
+        for li, (label, st) in enumerate(multisig_stacks(kr, digest, rnd)):
+            if (li + rep) % ns != sh:
+                continue
             body = [(_n(si.num_decode(x)) if (len(x) <= 1 and (x == b'' or 1 <= x[0] <= 16)) else x) for x in st]
-            # the items below the (m keys n) block are the spender's pushes; the block itself is the locking script
-            verify_form = rnd.random() < 0.25
-            lock_cmds = body + ([0xaf, 0x51] if verify_form else [0xae])
-            tail = rnd.choice([[], [], [0x91]]) if not verify_form else []
-            redeem = b'\x51'
-            for envname, env in (('no-env', None), ('env-redeemscript', {'redeemscript': redeem})):
-                run_program(lock_cmds + tail, digest, env, col, 'spend/multisig/%s/%s%s%s' % (label, envname, '/verify' if verify_form else '', '/not' if tail else ''))
-                count += 1
+            for form, cmds in (('', body + [0xae]), ('/verify', body + [0xaf, 0x51]), ('/not', body + [0xae, 0x91])):
+                for envname, env in (('no-env', None), ('env-redeemscript', {'redeemscript': b'\x51'})):
+                    run_program(cmds, digest, env, col, 'spend/multisig/%s/%s%s' % (label, envname, form))
 
 
 # ====================================================================== plan / shards / replay
